@@ -64,6 +64,7 @@ type c12Kind struct {
 	builtin    bool // built-in metric that clients are not allowed to send
 	unroutable bool // fixed shard beyond the configured shards
 	metaLevel  bool // rejected (or diverted) before tags and values are looked at: enumerated on a reduced grid
+	wireName   string // unknown metrics of the receive-path family: the name on the wire (default c12_nosuchmetric)
 }
 
 type c12Event struct {
@@ -89,6 +90,9 @@ type c12Alphabet struct {
 	hists    [][][2]float64
 	tags     []c12Tags
 	kinds    []c12Kind
+	// tags[:nTags] and kinds[:nKinds] are the alphabet of the single-event and pair parts; the entries behind them
+	// belong to the receive-path family (c12BuildRx) only
+	nTags, nKinds int
 }
 
 var c12Storage = data_model.NewChunkedStorageNop()
@@ -184,6 +188,7 @@ func c12BuildAlphabet(thorough bool) *c12Alphabet {
 	if len(names) != 0 {
 		a.kinds = append(a.kinds, c12Kind{name: "builtin-not-receivable", meta: format.BuiltinMetricByName[names[0]], builtin: true, metaLevel: true})
 	}
+	a.nTags, a.nKinds = len(a.tags), len(a.kinds)
 	return a
 }
 
@@ -382,30 +387,54 @@ func c12NewAgent(legacy bool) *Agent {
 // c12Handle mirrors cmd/statshouse worker.HandleMetrics (fillTime, fillMetricMeta, Map | MapEnvironment,
 // ApplyMetric); the metric lookup is a one-entry table instead of the journal.
 func c12Handle(a *Agent, alpha *c12Alphabet, e c12Event, k *c12Kind, scratch *[]byte) {
-	now := time.Unix(int64(c12Base), 0)
+	var m tlstatshouse.MetricBytes
+	c12FillMetric(&m, alpha, e, k)
+	c12HandleMetric(a, &m, k, scratch)
+}
+
+// c12FillMetric writes the event into m the way a client library does (field mask bits for the present fields).
+func c12FillMetric(mp *tlstatshouse.MetricBytes, alpha *c12Alphabet, e c12Event, k *c12Kind) {
 	name := "c12_nosuchmetric"
 	if k.badName {
 		name = "c12_\xffnosuch"
+	}
+	if k.wireName != "" {
+		name = k.wireName
 	}
 	if k.meta != nil {
 		name = k.meta.Name
 	}
 	tg := &alpha.tags[e.tags]
-	m := tlstatshouse.MetricBytes{Name: []byte(name), Counter: alpha.counters[e.counter].v}
+	m := tlstatshouse.MetricBytes{Name: []byte(name)}
+	if e.counter != 0 { // element 0 of the counter alphabet is "absent"
+		m.SetCounter(alpha.counters[e.counter].v)
+	}
 	for _, kv := range tg.kv {
 		m.Tags = append(m.Tags, tl.DictFieldStringStringBytes{Key: []byte(kv[0]), Value: []byte(kv[1])})
 	}
-	m.Value = append([]float64(nil), alpha.values[e.values]...)
-	m.Unique = append([]int64(nil), alpha.uniques[e.uniques]...)
-	m.Histogram = append([][2]float64(nil), alpha.hists[e.hist]...)
+	if e.values != 0 {
+		m.SetValue(append([]float64(nil), alpha.values[e.values]...))
+	}
+	if e.uniques != 0 {
+		m.SetUnique(append([]int64(nil), alpha.uniques[e.uniques]...))
+	}
+	if e.hist != 0 {
+		m.SetHistogram(append([][2]float64(nil), alpha.hists[e.hist]...))
+	}
 	switch e.ts {
 	case 0:
-		m.Ts = c12Base
+		m.SetTs(c12Base)
 	case 2:
-		m.Ts = c12Base - 1
+		m.SetTs(c12Base - 1)
 	case 3:
-		m.Ts = c12Base + 10
+		m.SetTs(c12Base + 10)
 	}
+	*mp = m
+}
+
+// c12HandleMetric is the part of worker.HandleMetrics that follows the parsing: m is the (receiver-owned) parsed metric.
+func c12HandleMetric(a *Agent, m *tlstatshouse.MetricBytes, k *c12Kind, scratch *[]byte) {
+	now := time.Unix(int64(c12Base), 0)
 	var h data_model.MappedMetricHeader
 	h.ReceiveTime = now
 	if m.Ts != 0 {
@@ -413,7 +442,7 @@ func c12Handle(a *Agent, alpha *c12Alphabet, e c12Event, k *c12Kind, scratch *[]
 	} else {
 		h.Key.Timestamp = uint32(now.Unix())
 	}
-	args := data_model.HandlerArgs{MetricBytes: &m, Scratch: scratch}
+	args := data_model.HandlerArgs{MetricBytes: m, Scratch: scratch}
 	metaOk := false
 	if k.meta != nil {
 		h.MetricMeta = k.meta
@@ -440,9 +469,9 @@ func c12Handle(a *Agent, alpha *c12Alphabet, e c12Event, k *c12Kind, scratch *[]
 	if metaOk {
 		a.Map(args, &h, nil)
 	} else {
-		a.MapEnvironment(&m, &h)
+		a.MapEnvironment(m, &h)
 	}
-	a.ApplyMetric(&m, &h, scratch)
+	a.ApplyMetric(m, &h, scratch)
 }
 
 type c12Row struct {
@@ -667,25 +696,25 @@ func c12Parallel(n int, f func(i int)) {
 
 func TestVerifC12(t *testing.T) {
 	rep := mc.NewReport("C12")
-	rep.Rule = "every combination of counter x values x uniques x histogram x tags x metric description (x timestamp form, x LegacyApplyValues where values exist) is sent alone to a fresh real agent through Agent.Map/ApplyMetric, the queue is flushed and all rows compared with the reference; then every ordered pair of a reduced event set is sent to one agent. A case is non-trivial when the event is rejected, or carries an explicit counter together with values/uniques/histogram, or the statement leaves its acceptance open."
+	rep.Rule = "every combination of counter x values x uniques x histogram x tags x metric description (x timestamp form, x LegacyApplyValues where values exist) is sent alone to a fresh real agent through Agent.Map/ApplyMetric, the queue is flushed and all rows compared with the reference; then every ordered pair of a reduced event set is sent to one agent; then every sequence of 1, 2 (and 3 over a reduced set; thorough: all) receive-path events x every cut into TL packets x {overwritten by the next parse, overwritten completely after every packet} goes through ONE reused batch / receive buffer / scratch into one agent, all receiver-owned bytes are overwritten, and the bucket (rows and string-top entries with their strings) is compared with the merge of the buckets the events leave alone. A case is non-trivial when the event is rejected, or carries an explicit counter together with values/uniques/histogram, or the statement leaves its acceptance open; a receive-path sequence when at least one of its events leaves a string in the bucket."
 	alpha := c12BuildAlphabet(mc.Thorough())
 	rep.Bounds["counters"] = len(alpha.counters)
 	rep.Bounds["values"] = len(alpha.values)
 	rep.Bounds["uniques"] = len(alpha.uniques)
 	rep.Bounds["histograms"] = len(alpha.hists)
-	rep.Bounds["tag_sets"] = len(alpha.tags)
-	rep.Bounds["metric_kinds"] = len(alpha.kinds)
+	rep.Bounds["tag_sets"] = alpha.nTags
+	rep.Bounds["metric_kinds"] = alpha.nKinds
 	rep.Assume("cmd/statshouse worker.HandleMetrics (fillTime, fillMetricMeta, Map|MapEnvironment, ApplyMetric) is mirrored by the harness with a one-entry metric table; disabled/unknown metrics get the status that fillMetricMeta assigns")
 	rep.Assume("rows are observed in the shard buckets handed to BucketsToPreprocess (before sampling and TL serialisation)")
 	rep.Assume("valid tag name/value = valid UTF-8 (what the strict normaliser accepts); values that are only normalised (trimmed, truncated), unknown tag names, tags set twice, unparsable raw values, histogram+uniques and zero total weight are left open by the statement and only checked for consistent accounting")
 
 	var singles []c12Single
-	for ki := range alpha.kinds {
+	for ki := 0; ki < alpha.nKinds; ki++ {
 		for c := range alpha.counters {
 			for v := range alpha.values {
 				for u := range alpha.uniques {
 					for h := range alpha.hists {
-						for tg := range alpha.tags {
+						for tg := 0; tg < alpha.nTags; tg++ {
 							if alpha.kinds[ki].metaLevel && (h > 1 || !alpha.metaLevelTags[tg]) {
 								continue // tags and histogram are never looked at for these metrics: reduced grid
 							}
@@ -702,7 +731,7 @@ func TestVerifC12(t *testing.T) {
 		}
 	}
 	// timestamp forms on a reduced grid
-	for ki := range alpha.kinds {
+	for ki := 0; ki < alpha.nKinds; ki++ {
 		for c := 0; c < 5; c++ {
 			for v := 0; v < 5; v++ {
 				for u := 0; u < 2; u++ {
@@ -791,6 +820,8 @@ func TestVerifC12(t *testing.T) {
 		rep.AddCounts(n, 2*n, n, nt2)
 		rep.Parts["pairs"] = map[string]any{"cases": n, "by_class": pairClasses}
 	}
+	// third part: sequences of events through one reused batch / receive buffer / scratch, as the receivers deliver them
+	c12ReceivePath(rep, alpha)
 	if mc.Expired() {
 		rep.Cap("wall_budget")
 	}
